@@ -355,6 +355,8 @@ def run(ctx, col: Collector):
             m = rc.methods.get('render_db')
             if m is None:
                 raise AnchorMissing(f'{rc.name}.render_db')
+            from .common import expanded
+            m = expanded(ctx, m.module, m.qualname, keep_extra=('render', 'reorder_tables_for_sql'))
             dbp = [a.arg for a in m.node.args.args][1]
             rets = [n for n in walk_no_nested(m.node) if isinstance(n, ast.Return)]
             if len(rets) != 1:
